@@ -750,6 +750,45 @@ def job_analyze(job):
             except Exception as ex:
                 to.update(exc=type(ex).__name__, msg=str(ex)[:300])
         res["term"] = tout
+        if "after_stats" in want:
+            # central moments and cumulants after the loop, as the goal handlers report them (after_loop = True), next to
+            # far terms of the conditional raw-moment sequences E[g^j | stopped] they must be the limits of
+            from cli.actions.goals_action import GoalsAction
+            aout = {}
+            singles = [g for g in job.get("term_goals", job.get("goals", [])) if g.isidentifier()][:1]
+            for g in singles:
+                ao = {"central": {}, "cumulant": {}, "far_raw": []}
+                aout[g] = ao
+                try:
+                    monom = symengine.sympify(g)
+                    ga = GoalsAction(Namespace(solvability_check=False, at_n=-1, after_loop=True, invariants=False, goals=[],
+                                               tail_bound_moments=2))
+                    ga.initialize_program(program, rec_builder)
+                    for k in (2, 3, 4):
+                        for kind, fn in (("central", ga.handle_central_moment_goal), ("cumulant", ga.handle_cumulant_goal)):
+                            try:
+                                v, _ex = fn([k, monom])
+                                ao[kind][str(k)] = [({"inf": True} if sympy.sympify(v).xreplace({sympy.Symbol(a): sympy.Rational(b) for a, b in pt.items()}) in (sympy.oo, -sympy.oo, sympy.zoo)
+                                                     else eval_closed_form(v, pt, 0)) for pt in points]
+                            except JobTimeout:
+                                raise
+                            except Exception as ex:
+                                ao[kind][str(k)] = [{"undef": f"{type(ex).__name__}: {str(ex)[:100]}"} for pt in points]
+                    for pt in points:
+                        rows = []
+                        for nn in (150, 300):
+                            row = []
+                            for j in (1, 2, 3, 4):
+                                cmj, _ = get_moment_given_termination(monom ** j, solvers, rec_builder, cli_args, program)
+                                v = eval_closed_form(cmj, pt, nn)
+                                row.append(v.get("q") or v.get("approx"))
+                            rows.append(row)
+                        ao["far_raw"].append(rows)
+                except JobTimeout:
+                    raise
+                except Exception as ex:
+                    ao["exc"] = f"{type(ex).__name__}: {str(ex)[:200]}"
+            res["after_stats"] = aout
     if "central" in want or "cumulant" in want:
         from cli.common import get_all_moments
         cout = {}
